@@ -335,8 +335,11 @@ func (uw *upWorld) fail(c *upCand) {
 	}
 }
 
+const sigUnprobedUpgrade = "upgrade-packet-from-a-candidate-that-never-probed-switches-the-transport"
+
 func runC08(c upCase) (fail string, stats map[string]bool) {
 	stats = map[string]bool{}
+	knownUnprobed := isKnown("C08", sigUnprobedUpgrade)
 	o := config.DefaultServerOptions()
 	o.SetAllowEIO3(true)
 	o.SetTransports(types.NewSet("polling", "websocket", "webtransport"))
@@ -848,14 +851,23 @@ func runC08(c upCase) (fail string, stats map[string]bool) {
 					break
 				}
 				if !cand.probed {
-					// an upgrade packet without a preceding probe exchange: not a conformant client;
-					// the statement does not say what the server does with it -- follow what it did
+					// an upgrade packet without a preceding probe exchange: the transport changes only when "the
+					// server [has] answered the candidate's probe ping with a probe pong": here it has not, so this is
+					// an unexpected packet like any other: only the candidate pays
 					stats["upgrade-without-probe"] = true
-					if uw.sr.Sock.Transport().Name() == cand.tr && !cand.closedByServer() {
-						cand.isUp, uw.cur, uw.upgrading = true, cand, nil
-					} else {
-						uw.fail(cand)
+					if knownUnprobed {
+						// (recorded finding: follow what the server did)
+						if uw.sr.Sock.Transport().Name() == cand.tr && !cand.closedByServer() {
+							cand.isUp, uw.cur, uw.upgrading = true, cand, nil
+						} else {
+							uw.fail(cand)
+						}
+						break
 					}
+					if got := uw.sr.Sock.Transport().Name(); got == cand.tr && uw.cur == nil {
+						return fmt.Sprintf("%s: the session's transport changed to %s upon an upgrade packet from a candidate whose probe the server has never answered (no probe was sent)", what, got), stats
+					}
+					uw.fail(cand)
 					break
 				}
 				cand.isUp, uw.cur, uw.upgrading = true, cand, nil
